@@ -353,14 +353,21 @@ func c18UDP(c *vk.Ctx, r *rand.Rand, catcher *panicCatcher) bool {
 	canaryClient, _ := newUDPClient(net.IPv4(198, 51, 100, 240).To4(), 0, keys[0])
 	defer canaryClient.Close()
 	canary := func() bool {
-		id := nextID(c.Batch)
-		t := w.targets[0]
-		canaryClient.Send(ssUDP(keys[0], randBytes(r, keys[0].Codec().C.SaltSize), t.addr(), mkUDPPayload(id, 1, 20, 30)), w.rig.Addr4())
-		if _, ok := t.waitID(id, udpB); !ok {
-			return false
+		// UDP may legitimately lose a datagram: "the service still works" = one of three attempts is served
+		for attempt := 0; attempt < 3; attempt++ {
+			id := nextID(c.Batch)
+			t := w.targets[0]
+			canaryClient.Send(ssUDP(keys[0], randBytes(r, keys[0].Codec().C.SaltSize), t.addr(), mkUDPPayload(id, 1, 20, 30)), w.rig.Addr4())
+			if _, ok := t.waitID(id, udpB/2); !ok {
+				c.Count("udp_canary_retries", 1)
+				continue
+			}
+			if _, ok := canaryClient.waitReply(keys[0], id|1<<56, udpB/2); ok {
+				return true
+			}
+			c.Count("udp_canary_retries", 1)
 		}
-		_, ok := canaryClient.waitReply(keys[0], id|1<<56, udpB)
-		return ok
+		return false
 	}
 	if !canary() {
 		c.Violation("C18/udp-canary-not-served-before-any-hostile-case", "")
